@@ -110,8 +110,8 @@ def const_tu():
     for b in ("Bernstein", "Bspline"):
         for K in range(KMAX + 1):
             t += 'extern "C" void pcb_%s_%d(double*o){ constexpr auto m = polynomial_cumulative_basis<PolynomialBasis::%s, %d>(); dump(m, o, %d, %d); }\n' % (b, K, b, K, K + 1, K + 1)
-    for K in (1, 3, 5, 10):
-        for P in (0, 1, 2, 3):
+    for K in range(KMAX + 1):
+        for P in range(K + 1):
             if P <= K:
                 t += 'extern "C" void mi_%d_%d(double*o){ constexpr auto m = monomial_integral<%d, %d>(); dump(m, o, %d, %d); }\n' % (K, P, K, P, K + 1, K + 1)
     for K in range(1, 17):
@@ -237,10 +237,8 @@ def run_bases(tier="quick", seed=0, canary=False):
             res.add("%s/%s<%d>/partition-of-unity+nonneg" % (tag, b, K), "proved" if ok and nn else "refuted", "ground", 0.0,
                     "sum == 1 exactly; Bernstein-form coefficients of every basis function >= 0", extra=None if ok and nn else dict(confirmed=True))
     # monomial_integral
-    for K in (1, 3, 5, 10):
-        for P_ in (0, 1, 2, 3):
-            if P_ > K:
-                continue
+    for K in range(KMAX + 1):
+        for P_ in range(K + 1):
 
             def go3(K=K, P_=P_):
                 got = consts_of(xt, "mi_%d_%d" % (K, P_), (K + 1) ** 2)["o"]
